@@ -309,6 +309,16 @@ def gen_case(rng, n):
             p2, q2 = rng.choice(same2)
             s2 = rng.choice([1, -1])
             expr = expr + s2 * expr.xreplace({p2: q2, q2: p2})
+    elif len(same) >= 3 and rng.random() < 0.6:
+        # cyclic partner: non-commuting product of transpositions
+        tri = [t for t in itertools.combinations(tg, 3)
+               if len({(x.space, x.spin) for x in t}) == 1]
+        if tri:
+            p, q, r3 = rng.choice(tri)
+            cyc = expr.xreplace({p: q, q: r3, r3: p})
+            expr = expr + cyc
+            if rng.random() < 0.5:
+                expr = expr + cyc.xreplace({p: q, q: r3, r3: p})
     elif rng.random() < 0.25:
         # unrelated further terms with the same targets
         other = NT("R", tuple(tg)) * rand_pref(rng) if tg else \
@@ -418,6 +428,22 @@ def corpus():
     add("corpus:sym-result", Amplitude("Y", (i,), (a,)) *
         Amplitude("X", (j,), (b,)) + Amplitude("Y", (j,), (a,)) *
         Amplitude("X", (i,), (b,)), [i, j, a, b], "ij,ab", anti=False)
+    # cyclic permutations: products of non-commuting transpositions, applied
+    # in the listed order
+    X3 = NT("A", (i,)) * NT("B", (j,)) * NT("C", (k,))
+    c1 = X3.xreplace({i: j, j: k, k: i})
+    c2 = c1.xreplace({i: j, j: k, k: i})
+    add("corpus:cyclic-2", X3 + c1, [i, j, k], "ijk")
+    add("corpus:cyclic-2-sym", X3 + c1, [i, j, k], "ijk", anti=False)
+    add("corpus:cyclic-3-sym", X3 + c1 + c2, [k, i, j], "kij", anti=False)
+    add("corpus:cyclic-3-comma", Rational(1, 2) * (X3 + c1 + c2), [i, j, k],
+        "ijk,")
+    Y3 = NT("A", (a, l)) * NT("B", (b, l)) * AT("f", (c,), (d,)) * \
+        NT("Z", (d,))
+    d1 = Y3.xreplace({a: b, b: c, c: a})
+    add("corpus:cyclic-virt-contracted", Y3 - 2 * d1, [a, b, c], "abc")
+    add("corpus:cyclic-virt-contracted-3", Y3 + d1 +
+        d1.xreplace({a: b, b: c, c: a}), [c, a, b], ",cab", anti=False)
     add("corpus:square", Amplitude("Y", (i,), (a,)) ** 2 * NT("Z", (j,)),
         [j], "j")
     add("corpus:partial-trace", NT("A", (i, j, j)) * NT("B", (i, k)), [k],
